@@ -16,6 +16,13 @@ const Available = true
 // SetPoint installs the function called at every instrumented point (nil to remove).
 func SetPoint(f func(id int)) { css.VerifHook = f }
 
+// Point is a scheduling point of the harness's own (used inside destination writers: I/O is where a goroutine parks).
+func Point(id int) {
+	if h := css.VerifHook; h != nil {
+		h(id)
+	}
+}
+
 // SetMapOrder installs the map-range order chooser (nil = sorted order).
 func SetMapOrder(f func(site, n int) []int) { css.VerifMapOrderHook = f }
 
